@@ -168,6 +168,9 @@ impl Hash for Half { fn hash<H: Hasher>(&self, h: &mut H) { h.write_u8(self.0) }
 impl fmt::Debug for Half { fn fmt(&self, f: &mut fmt::Formatter<'_>) -> fmt::Result { write!(f, "H{}", self.0) } }
 impl Clone for Half { fn clone(&self) -> Self { Half(self.0) } }
 impl Default for Half { fn default() -> Self { Half(0) } }
+/// implements every trait the probes ask about, but NOT the marker `Mk`
+#[derive(Debug, Clone, Copy, PartialEq, Eq, PartialOrd, Ord, Hash, Default)]
+pub struct Full(pub u8);
 pub struct Probe<T: ?Sized>(pub ::core::marker::PhantomData<T>);
 pub trait ProbeFallback { const YES: bool = false; }
 impl<T: ?Sized> ProbeFallback for Probe<T> {}
